@@ -125,7 +125,7 @@ def code_sweep_histories(rng, syss, modes=("lo", "hi", "rand-hi"), per_hist=12, 
             rx = d.get(verb)
             if not isinstance(rx, str):
                 continue
-            for mode in modes:
+            for mode in tuple(modes) + ("min0-hi", "min1-hi", "min2-hi", "min0-lo", "min1-lo"):
                 pl = gen(rx, rng, mode=mode)
                 if len(pl) % 2 or not 2 <= len(pl) <= 96:
                     continue
@@ -136,9 +136,45 @@ def code_sweep_histories(rng, syss, modes=("lo", "hi", "rand-hi"), per_hist=12, 
                 vs.append(f"2026-01-01T00:00:00.000000 045 {verb} --- {addrs} {code} {len(pl) // 2:03d} {pl}")
     rng.shuffle(vs)
     out = []
+    # every I / RP shape once from the recorded system's OWN controller (self-addressed broadcast, or in reply to the gateway): its system-level views read these
+    ctl_vs = []
+    for code, d in sorted(CODES_SCHEMA.items()):
+        for verb in (" I", "RP"):
+            rx = d.get(verb)
+            if not isinstance(rx, str):
+                continue
+            for mode in ("min0-hi", "min1-hi", "min2-hi", "min0-lo"):
+                pl = gen(rx, rng, mode=mode)
+                if len(pl) % 2 or not 2 <= len(pl) <= 96:
+                    continue
+                ctl_vs.append((verb, code, pl))
+    rng.shuffle(ctl_vs)
+    for i in range(0, len(ctl_vs), per_hist):
+        name, base, cfg = syss[(i // per_hist) % len(syss)]
+        ctl = next((dev for ln in base[:400] for dev in re.findall(r"\b(01:\d{6})\b", ln[27:])), None)
+        if ctl is None:
+            continue
+        own = [f"2026-01-01T00:00:00.000000 045 {verb} --- " + (f"{ctl} --:------ {ctl}" if verb == " I" else f"{ctl} 18:126620 --:------") + f" {code} {len(pl) // 2:03d} {pl}"
+               for verb, code, pl in ctl_vs[i:i + per_hist]]
+        out.append((retime(base[:prefix] + own), "code-sweep", name, cfg))
     for i in range(0, len(vs), per_hist):
         name, base, cfg = syss[(i // per_hist) % len(syss)]
-        out.append((retime(base[:prefix] + vs[i:i + per_hist]), "code-sweep", name, cfg))
+        # ... half of them sent by the recorded system's OWN kit (its controller, its devices of that type) in place of the neighbour's
+        own = {}
+        for ln in base[:400]:
+            for dev in re.findall(r"\b(\d\d:\d{6})\b", ln[27:]):
+                if dev[:2] not in ("18", "63") and dev != "--:------":
+                    own.setdefault(dev[:2], dev)
+        mine = []
+        for v in vs[i:i + per_hist]:
+            f = v.split()
+            srcs = [a for a in f[4:7] if a != "--:------"]
+            if srcs and rng.random() < 0.5 and srcs[0][:2] in own:
+                v = v.replace(srcs[0], own[srcs[0][:2]])
+            elif srcs and rng.random() < 0.3 and "01" in own:       # or by its controller, whatever the code
+                v = v.replace(srcs[0], own["01"])
+            mine.append(v)
+        out.append((retime(base[:prefix] + mine), "code-sweep", name, cfg))
     return out
 
 
